@@ -8,10 +8,15 @@ from .interp import Interp, Frame, EXC_HIER
 from . import contract as C
 
 
-def verify_function(src, key, prop):
+def verify_function(src, key, prop, first=None):
+    """`first`: explore only the paths whose first non-deterministic choice
+    (the shape chosen in the contract's setup) is `first` - used to spread
+    one function over several worker processes."""
     con = C.REGISTRY[key]
     node = src.get(key)
     run = Run(key, prop)
+    if first is not None:
+        run.worklist = [[first]]
     t0 = time.time()
     if node is None:
         run.undecided.append(f"function {key} not found in the working tree")
